@@ -65,7 +65,7 @@ VARIABLES tag,    \* the card: kind, ck, rc, wcnt, ext, blk, locked, keychg, nau
 
 vars == <<tag, rd, pc, op, resp, orig, tamp, rep, hist, nadv, nops, nchal, last, prot>>
 
-NoOp   == [name |-> "none", pw |-> NoPw, bs |-> <<>>, b |-> "-", v |-> "-", outer |-> "none", rc |-> 0]
+NoOp   == [name |-> "none", pw |-> NoPw, bs |-> <<>>, b |-> "-", v |-> "-", outer |-> "none", rc |-> 0, wres |-> {}]
 NoLast == [op |-> "none", kind |-> "-", pw |-> NoPw, res |-> "-", d |-> <<>>, tamp |-> FALSE, rep |-> FALSE,
            ck |-> Factory, gen |-> <<>>, sk |-> <<Factory, 0>>, iv |-> 0, trc |-> 0, tsk |-> <<Factory, 0>>]
 
@@ -73,7 +73,8 @@ NoLast == [op |-> "none", kind |-> "-", pw |-> NoPw, res |-> "-", d |-> <<>>, ta
 \* id1: the first byte of the ID block is 01h (IDm of Sony chips starts with manufacturer code 01h)
 TagInit(kind, ck, blk, locked, keychg, id1) ==
     [kind |-> kind, ck |-> ck, rc |-> 0, sk |-> <<ck, 0>>, wcnt |-> 0, ext |-> FALSE, blk |-> blk,
-     locked |-> locked, keychg |-> keychg, nauth |-> FALSE, id1 |-> id1]
+     locked |-> locked, keychg |-> keychg, nauth |-> FALSE, id1 |-> id1,
+     wres |-> {}]      \* Lite-S: user blocks that may only be written after external authentication (MC bytes 8..9)
 RdInit == [has |-> FALSE, sk |-> <<Factory, 0>>, iv |-> 0, auth |-> FALSE]
 
 InitWith(t) ==
@@ -156,8 +157,10 @@ SReadWcnt ==
     /\ Answer(IF op.name = "write" THEN "w_wr" ELSE "s_wst", PlainResp(<<WV(tag.wcnt)>>))
     /\ UNCHANGED <<tag, rd, op, tamp, rep, hist, nadv, nchal, prot>>
 
-\* the tag accepts a MAC_A write iff the MAC_A equals the one it computes itself
-TagAccepts(w, b, v) == MacWOf(rd.sk, rd.iv, w, b, v) = MacWOf(TagSK, tag.rc, WV(tag.wcnt), b, v)
+\* the tag accepts a MAC_A write iff the MAC_A equals the one it computes itself and, for a block that
+\* protect() restricted (protect_from <= block), the reader is externally authenticated in this session
+TagAccepts(w, b, v) == /\ MacWOf(rd.sk, rd.iv, w, b, v) = MacWOf(TagSK, tag.rc, WV(tag.wcnt), b, v)
+                       /\ (b \in tag.wres => tag.ext)
 
 \* write_with_mac(b"\x01" + 15*b"\0", 0x92): external authentication         (tt3_sony.py:919)
 SWriteState(out) ==
@@ -274,9 +277,10 @@ WWrite(out) ==
     /\ UNCHANGED <<rd, op, rep, hist, nadv, nchal, prot>>
 
 \* ---- protect(password) (provisioning; no adversary while it runs) -----------------------------
-StartProtect(pw) ==
+\* wres: the user blocks at or above protect_from (they become write restricted on a Lite-S)
+StartProtect(pw, wres) ==
     /\ Idle /\ (tag.kind = "lites" => nchal < MaxChal)
-    /\ Begin([NoOp EXCEPT !.name = "protect", !.pw = pw, !.outer = "protect"])
+    /\ Begin([NoOp EXCEPT !.name = "protect", !.pw = pw, !.outer = "protect", !.wres = wres])
     /\ Goto("p_rmc") /\ UNCHANGED rd
 
 \* read the memory configuration (FeliCa: MC block 88h; NTAG: CFG pages) and decide
@@ -308,7 +312,8 @@ PWriteKey(out) ==
 \* FeliCa: write the memory configuration block (system blocks read-only; Lite-S: key change by MAC)
 PWriteMC(out) ==
     /\ pc = "p_wmc" /\ out = "True"
-    /\ tag' = [tag EXCEPT !.locked = TRUE, !.keychg = (tag.kind = "lites")]
+    /\ tag' = [tag EXCEPT !.locked = TRUE, !.keychg = (tag.kind = "lites"),
+                         !.wres = IF tag.kind = "lites" THEN op.wres ELSE @]
     /\ Finish("True", <<>>, tag', rd, FALSE)
     /\ prot' = [set |-> TRUE, k |-> tag.ck]
     /\ UNCHANGED <<rd, op, tamp, rep, hist, nadv, nchal>>
@@ -341,7 +346,7 @@ Command == AWriteRC \/ AReadId \/ SReadWcnt \/ SReadState \/ NPwd \/ RRead
 BlockLists == {<<b>> : b \in Blocks} \cup {<<a, b>> : a, b \in Blocks}
 
 Next ==
-    \/ \E pw \in Pws : StartAuth(pw) \/ StartProtect(pw)
+    \/ \E pw \in Pws : StartAuth(pw) \/ StartProtect(pw, {}) \/ StartProtect(pw, Blocks)
     \/ \E bs \in BlockLists : StartRead(bs)
     \/ \E b \in Blocks, v \in Vals : StartWrite(b, v)
     \/ StartNdef
@@ -409,6 +414,7 @@ W_NdefNoneTamper  == ~(last.op = "ndef" /\ last.res = "None" /\ last.tamp /\ op.
 W_NdefTypeError   == ~(last.op = "ndef" /\ last.res = "TypeError")
 W_WriteOk         == ~(last.op = "write" /\ last.res = "None")
 W_WriteRefused    == ~(last.op = "write" /\ last.res = "TagCommandError")
+W_WriteNeedsAuth  == ~(last.op = "write" /\ last.res = "TagCommandError" /\ ~last.tamp /\ last.sk = last.tsk /\ last.iv = last.trc)
 \* documented protocol limits that the model exhibits (they bound what the invariants may claim)
 W_ReplayStale     == ~(last.op = "read" /\ last.res = "Data" /\ last.rep /\ last.d # last.gen)
 W_MutualReplayFools == ~(last.op = "auth" /\ last.res = "True" /\ last.kind = "lites" /\ last.tamp)
